@@ -316,6 +316,8 @@ class FSM(object):
                 pass
             self._close_connection()
             self.connect_retry_timer.reset(self.connect_retry_time)
+            # (the large hold timer belongs to the connection that was lost)
+            self.hold_timer.cancel()
             self.state = bgp_cons.ST_ACTIVE
             if self.bgp_peering:
                 self.bgp_peering.connection_closed(self.protocol)
@@ -422,6 +424,9 @@ class FSM(object):
         if self.state in (bgp_cons.ST_OPENSENT, bgp_cons.ST_OPENCONFIRM):
             # State OpenSent, event 24
             self.connect_retry_timer.cancel()
+            # (the session is over: its hold and keepalive timers must not expire into the next connection attempt)
+            self.hold_timer.cancel()
+            self.keep_alive_timer.cancel()
             self._close_connection()
             self.state = bgp_cons.ST_IDLE
         elif self.state in (bgp_cons.ST_CONNECT, bgp_cons.ST_ACTIVE):
